@@ -130,7 +130,7 @@ pub fn set_menu(full: bool) -> Vec<(u8, u8)> {
         v.push((4, 1));
         v
     } else {
-        vec![(0, 2), (0, 3), (0, 4), (0, 0), (1, 2), (1, 0), (2, 2), (3, 2), (4, 1)]
+        vec![(0, 2), (0, 3), (0, 4), (0, 0), (1, 2), (2, 2), (4, 1)]
     }
 }
 
@@ -513,6 +513,7 @@ pub fn explore(
     max_depth: usize,
     full_menu: bool,
     all_crash_points: bool,
+    crash_r: bool,
     on_transition: OnTransition,
     on_state: Option<OnState>,
     collect: Option<&Mutex<Vec<HState>>>,
@@ -639,7 +640,7 @@ pub fn explore(
                     Some((slot, v)) => st.src.set(*slot, *v),
                     None => st.src,
                 };
-                for copt in [0u8, 2u8] {
+                for copt in if crash_r { vec![0u8, 2u8] } else { vec![0u8] } {
                     let trace_c = if copt == 0 {
                         trace.clone()
                     } else {
